@@ -273,6 +273,70 @@ fn scripted_one(rt: &tokio::runtime::Runtime, scn: &[Value], serial: &mut u64, o
 }
 
 // ---------------------------------------------------------------------------
+// the TTL manager's sweep against a client write
+
+/// One key whose TTL has lapsed but which has not been evicted yet; the TTL manager's sweep (`evict_expired_all_shards`)
+/// and one client write on a chosen path are in flight together, polled in a chosen order on a single-threaded runtime
+/// (so the order in which their messages reach the shard's mailbox is fixed); then reads.  The lapsed value is logically
+/// gone (the shards have been told the time), so the history starts from an absent key and the sweep is not an operation:
+/// an acknowledged write must be there for the reads that follow.
+fn sweep_one(rt: &tokio::runtime::Runtime, shards: usize, path: &'static str, kind: &'static str, sweep_first: bool, extra_polls: usize, out: &mut Out) {
+    let names = key_names(shards.max(2), shards);
+    let key = names[0].clone();
+    let mut ops: Vec<Done> = Vec::new();
+    rt.block_on(async {
+        let clock = Arc::new(Mutex::new(1000u64));
+        let mut perf = PerformanceConfig::default();
+        perf.response_pool.capacity = 2;
+        perf.response_pool.prewarm = 1;
+        let st: Arc<State> = Arc::new(ShardedActorState::with_perf_config_and_time_source(&perf, ShardConfig::with_shards(shards), HarnessTime(clock.clone())));
+        // the key (and a neighbour) with a TTL that lapses; every shard is told the new time by a generic command
+        let _ = exec(&st, vec![b("SET"), b(&key), b(if kind == "incr" { "40" } else { "old" }), b("PX"), b("50")]).await;
+        let _ = exec(&st, vec![b("SET"), b(&names[1]), b("other"), b("PX"), b("50")]).await;
+        *clock.lock().unwrap() += 200;
+        for i in 0..16 {
+            let _ = exec(&st, vec![b("EXISTS"), b(&format!("probe{i}"))]).await;
+        }
+        let waker = futures::task::noop_waker();
+        let mut cx = Context::from_waker(&waker);
+        let call = Call { path, subs: vec![Sub { key: key.clone(), kind, arg: if kind == "incr" { "2".into() } else { "new".into() }, argn: 2, num: kind == "incr" }] };
+        let mut t = 0u64;
+        let stc = st.clone();
+        let mut sweep: Pin<Box<dyn Future<Output = usize>>> = Box::pin(async move { stc.evict_expired_all_shards().await });
+        let mut sweep_done = false;
+        let mut fut: Fut = Box::pin(issue(st.clone(), call.clone()));
+        let mut reply = None;
+        t += 1;
+        let inv = t;
+        if sweep_first {
+            for _ in 0..=extra_polls {
+                if !sweep_done && sweep.as_mut().poll(&mut cx).is_ready() { sweep_done = true; }
+                if extra_polls > 0 { tokio::task::yield_now().await; }
+            }
+        }
+        if let Poll::Ready(r) = fut.as_mut().poll(&mut cx) { reply = Some(r); }
+        for _ in 0..200 {
+            if reply.is_some() && sweep_done { break; }
+            if !sweep_done && sweep.as_mut().poll(&mut cx).is_ready() { sweep_done = true; }
+            for _ in 0..2 { tokio::task::yield_now().await; }
+            if reply.is_none() { if let Poll::Ready(r) = fut.as_mut().poll(&mut cx) { reply = Some(r); } }
+        }
+        t += 1;
+        ops.push(Done { id: 1, c: 1, call, inv, ret: t, replies: Some(reply.unwrap_or_else(|| vec![RespValue::err("HARNESS never completed")])) });
+        // what the clients see afterwards, on two read paths
+        for (i, rp) in ["generic", "fast"].iter().enumerate() {
+            let call = Call { path: rp, subs: vec![Sub { key: key.clone(), kind: "get", arg: String::new(), argn: 0, num: false }] };
+            t += 1;
+            let inv = t;
+            let r = issue(st.clone(), call.clone()).await;
+            t += 1;
+            ops.push(Done { id: 2 + i, c: 1, call, inv, ret: t, replies: Some(r) });
+        }
+    });
+    emit_history(out, "sweep", json!({"shards": shards, "path": path, "kind": kind, "sweep_first": sweep_first, "extra_polls": extra_polls}), &ops);
+}
+
+// ---------------------------------------------------------------------------
 // free running
 
 fn random_call(rng: &mut impl Rng, regs: &[String], ctrs: &[String], serial: &AtomicU64) -> Call {
@@ -524,6 +588,17 @@ pub fn main(args: &[String]) -> i32 {
                     hangs += 1;
                     if hangs >= 3 {
                         break; // every such history is a violation already; waiting out more time-outs adds nothing
+                    }
+                }
+            }
+        }
+        Some("sweep") => {
+            let rt = tokio::runtime::Builder::new_current_thread().enable_all().build().unwrap();
+            for shards in [1usize, 2, 4] {
+                for (path, kind) in [("generic", "set"), ("fast", "set"), ("pooled", "set"), ("batch", "set"), ("script", "set"), ("sha", "set"),
+                                     ("generic", "getset"), ("generic", "incr"), ("script", "incr"), ("script", "getset")] {
+                    for (sweep_first, extra) in [(true, 0usize), (true, 1), (true, 2), (false, 0)] {
+                        sweep_one(&rt, shards, path, kind, sweep_first, extra, &mut out);
                     }
                 }
             }
